@@ -11,9 +11,17 @@
 //           or a packed size set p565 p332 p4444 p5551 g4 c4444 (bits per COLOUR in colour-space order; models K packed_pixel,
 //           B bit-aligned reference (bit offset 3), D read-only bit-aligned reference)
 //   acc <cs> <T> <m> <l> v0 ..
-//        -> at=<at_c<K>> sem=<semantic_at_c<S>> col=<get_color by colour-space order> idx=<operator[K] | -> off=<position of at_c<K>:
+//        -> at=<at_c<K>> sem=<semantic_at_c<S>> col=<get_color by colour-space order> idx=<operator[K] for every run-time K | ->
+//           dyn=<dynamic_at_c(p, K) for every K | -> wr=<memory after p[K] = v[K]+1 for every K (mutable models) | -> off=<position of at_c<K>:
 //           byte offset (V R), plane number (P), first bit inside the pixel (K B)>; model I = planar_pixel_iterator: at from *it,
 //           sem from it[1] (second pixel = first + 1), col from *planar_pixel_iterator(&*it), off = element index 2K+1 of it[1]'s channels
+//   spare <cs> <T> <dl> <sm> <sl> <raw> v0 ..
+//        packed pixels whose channels do NOT fill the bit field (T: s432 = 4-3-2 bits per colour in uint16_t, s565w = 5-6-5 in uint32_t,
+//        s222 = 2-2-2 in uint8_t, s5551w = 5-5-5-1 in uint32_t, sg3 = 3 in uint8_t).  dst = packed_pixel(BitField(raw)) of layout dl (spare
+//        bits pre-loaded from raw), src = model sm (K packed_pixel of the same carrier, B bit-aligned reference) of layout sl holding v;
+//        dst = src; same0 / same1 = pixels of dst's type with dst's colours, spare bits all 0 / all 1; other = same0 with one channel changed
+//        -> A=<dst channels> F=<dst bit field> E=<dst==src> Es=<src==dst> Q0=<dst==same0> R0=<same0==dst> Q1=<dst==same1> R1=<same1==dst>
+//           T=<same0==same1> N0=<dst!=same0> N1=<dst!=same1> D=<dst==other> DN=<dst!=other>
 //   alg <cs> <T> <l1> <l2> v0 .. | w0 ..      (value pixels p1: layout l1 values v, p2: layout l2 values w)
 //        -> fill= gen= fe1= fe2= fe3= tr1= tr2= min= max= minat= maxat= eq= cp=
 #include <boost/gil.hpp>
@@ -129,17 +137,29 @@ template <typename T, typename L> static string acc_h(char m, std::vector<double
     constexpr int n = nchan<L>(); using cs_t = typename L::color_space_t; using pix_t = gil::pixel<T, L>;
     using idx = std::make_integer_sequence<int, n>;
     if ((int)v.size() != n) return "bad-op";
+    std::vector<double> dyn, wr;
     auto fmt = [&](auto const& p, std::vector<double> ix, std::vector<double> off) {
-        return "at=" + show(phys(p)) + " sem=" + show(sem_(p, idx{})) + " col=" + show(col_(p, mp11::mp_rename<cs_t, mp11::mp_list>{})) + " idx=" + show(ix) + " off=" + show(off); };
+        return "at=" + show(phys(p)) + " sem=" + show(sem_(p, idx{})) + " col=" + show(col_(p, mp11::mp_rename<cs_t, mp11::mp_list>{})) + " idx=" + show(ix)
+             + " dyn=" + show(dyn) + " wr=" + show(wr) + " off=" + show(off); };
     if (m == 'V' || m == 'R') {
         T buf[n]; for (int i = 0; i < n; ++i) buf[i] = (T)v[i];               // raw memory, then read through the API
         auto view = gil::interleaved_view(1, 1, reinterpret_cast<pix_t*>(buf), n * sizeof(T));
         pix_t& r = view(0, 0); pix_t val = r;
         pix_t const& p = (m == 'V') ? val : r;
         std::vector<double> ix, off;
-        for (int i = 0; i < n; ++i) ix.push_back((double)p[i]);
+        for (int i = 0; i < n; ++i) { ix.push_back((double)p[i]); dyn.push_back((double)gil::detail::dynamic_at_c(p, i)); }
         off = byte_offsets_(p, idx{});
-        return fmt(p, ix, off);
+        string res = fmt(p, ix, off);
+        {   // write through operator[] / dynamic_at_c with every run-time index (odd indices through dynamic_at_c), then look at raw memory
+            T wbuf[n]; for (int i = 0; i < n; ++i) wbuf[i] = (T)v[i];
+            auto wview = gil::interleaved_view(1, 1, reinterpret_cast<pix_t*>(wbuf), n * sizeof(T));
+            pix_t& wref = wview(0, 0); pix_t wval = wref;
+            pix_t& q = (m == 'V') ? wval : wref;
+            for (int i = 0; i < n; ++i) { if (i % 2) gil::detail::dynamic_at_c(q, i) = (T)(v[i] + 1); else q[i] = (T)(v[i] + 1); }
+            std::vector<double> w2; if (m == 'V') w2 = phys(wval); else for (int i = 0; i < n; ++i) w2.push_back((double)wbuf[i]);
+            res.replace(res.find(" wr=-"), 5, " wr=" + show(w2));
+        }
+        return res;
     }
     if (m == 'I') {                       // planar pixel iterator: deref(), operator[] (offset constructor), iterator from &reference (pointer constructor)
         if constexpr (n >= 2 && is_identity<L>()) {
@@ -152,18 +172,29 @@ template <typename T, typename L> static string acc_h(char m, std::vector<double
             std::vector<double> ix, off;
             for (int i = 0; i < n; ++i) ix.push_back((double)r0[i]);
             off = plane_numbers_(r1, &pl[0][0], idx{});
-            return "at=" + show(phys(r0)) + " sem=" + show(sem_(r1, idx{})) + " col=" + show(col_(r2, mp11::mp_rename<cs_t, mp11::mp_list>{})) + " idx=" + show(ix) + " off=" + show(off);
+            return "at=" + show(phys(r0)) + " sem=" + show(sem_(r1, idx{})) + " col=" + show(col_(r2, mp11::mp_rename<cs_t, mp11::mp_list>{})) + " idx=" + show(ix) + " dyn=- wr=- off=" + show(off);
         }
     }
-    if (m == 'P') {
+    if (m == 'P' || m == 'Q') {           // planar reference (P mutable, Q read-only): operator[] = at_c_dynamic of the colour base
         if constexpr (n >= 2 && is_identity<L>()) {
-            using pref_t = gil::planar_pixel_reference<T&, cs_t>;
+            using pref_t = gil::planar_pixel_reference<T&, cs_t>; using cpref_t = gil::planar_pixel_reference<T const&, cs_t>;
             T pl[n]; for (int i = 0; i < n; ++i) pl[i] = (T)v[i];
+            if (m == 'Q') {
+                T const* cpl = pl; cpref_t const p = make_planar<cpref_t>(cpl, std::integral_constant<int, n>{});
+                std::vector<double> ix, off;
+                for (int i = 0; i < n; ++i) { ix.push_back((double)p[i]); dyn.push_back((double)gil::detail::dynamic_at_c(p, i)); }
+                off = plane_numbers_(p, cpl, idx{});
+                return fmt(p, ix, off);
+            }
             pref_t const p = make_planar<pref_t>(pl, std::integral_constant<int, n>{});
             std::vector<double> ix, off;
-            for (int i = 0; i < n; ++i) ix.push_back((double)p[i]);
+            for (int i = 0; i < n; ++i) { ix.push_back((double)p[i]); dyn.push_back((double)gil::detail::dynamic_at_c(p, i)); }
             off = plane_numbers_(p, pl, idx{});
-            return fmt(p, ix, off);
+            string res = fmt(p, ix, off);
+            for (int i = 0; i < n; ++i) { if (i % 2) gil::detail::dynamic_at_c(p, i) = (T)(v[i] + 1); else p[i] = (T)(v[i] + 1); }
+            std::vector<double> w2; for (int i = 0; i < n; ++i) w2.push_back((double)pl[i]);
+            res.replace(res.find(" wr=-"), 5, " wr=" + show(w2));
+            return res;
         }
     }
     return "bad-op";
@@ -258,7 +289,7 @@ template <typename Sz, typename L> static string acc_p(char m, std::vector<doubl
     if ((int)v.size() != n) return "bad-op";
     auto fmt = [&](auto const& p, std::vector<double> off) {
         std::vector<double> sem = psem_(p, typename K::idx{}), col = pcol_(p, mp11::mp_rename<cs_t, mp11::mp_list>{});
-        return "at=" + show(pphys_(p, typename K::idx{})) + " sem=" + show(sem) + " col=" + show(col) + " idx=- off=" + show(off); };
+        return "at=" + show(pphys_(p, typename K::idx{})) + " sem=" + show(sem) + " col=" + show(col) + " idx=- dyn=- wr=- off=" + show(off); };
     if (m == 'K') {
         typename K::packed_t p; pput_(p, v, typename K::idx{});
         return fmt(p, first_bits_(p, typename K::idx{}));
@@ -271,6 +302,36 @@ template <typename Sz, typename L> static string acc_p(char m, std::vector<doubl
     return "bad-op";
 }
 
+// packed pixels with SPARE bits: explicit carrier BF wider than the channels
+template <typename BF, typename Sz, typename DL, typename SL> static string spare_op(char sm, unsigned long long raw, std::vector<double> v) {
+    using dsz = typename phys_sizes<DL, Sz>::type; using ssz = typename phys_sizes<SL, Sz>::type;
+    using dpix_t = typename gil::packed_pixel_type<BF, dsz, DL>::type; using spix_t = typename gil::packed_pixel_type<BF, ssz, SL>::type;
+    constexpr int n = (int)mp11::mp_size<dsz>::value; constexpr int bits = mp11::mp_fold<Sz, std::integral_constant<int, 0>, mp11::mp_plus>::value;
+    using bbf_t = typename gil::detail::min_fast_uint<bits + 7>::type;
+    using bref_t = gil::bit_aligned_pixel_reference<bbf_t, ssz, SL, true>;
+    using idx = std::make_integer_sequence<int, n>;
+    if ((int)v.size() != n) return "bad-op";
+    string out = "bad-op";
+    auto with_src = [&](auto const& src) {
+        dpix_t d{BF(raw)};                               // raw bits, e.g. a word read from a frame buffer
+        d = src;
+        std::vector<double> a = pphys_(d, idx{});
+        dpix_t same0{BF(0)}; pput_(same0, a, idx{});      // dst's colours, spare bits 0
+        dpix_t same1{BF(~BF(0))}; pput_(same1, a, idx{}); // dst's colours, spare bits 1
+        dpix_t other = same0; std::vector<double> b = a; b[n - 1] = (double)(((unsigned long long)a[n - 1]) ^ 1ull); pput_(other, b, idx{});
+        out = "A=" + show(a) + " F=" + std::to_string((unsigned long long)d._bitfield)
+            + " E=" + std::to_string(d == src) + " Es=" + std::to_string(src == d)
+            + " Q0=" + std::to_string(d == same0) + " R0=" + std::to_string(same0 == d) + " Q1=" + std::to_string(d == same1) + " R1=" + std::to_string(same1 == d)
+            + " T=" + std::to_string(same0 == same1) + " N0=" + std::to_string(d != same0) + " N1=" + std::to_string(d != same1)
+            + " D=" + std::to_string(d == other) + " DN=" + std::to_string(d != other);
+    };
+    if (sm == 'K') { spix_t s{BF(0)}; pput_(s, v, idx{}); with_src(s); }
+    else if (sm == 'B') {
+        std::unique_ptr<unsigned char[]> buf(new unsigned char[(5 + bits + 7) / 8]());
+        bref_t const s(buf.get(), 5); pput_(s, v, idx{}); with_src(s);
+    }
+    return out;
+}
 // ---------------------------------------------------------------- dispatch
 using rgb_ls = mp11::mp_list<gil::rgb_layout_t, gil::bgr_layout_t>;
 using rgba_ls = mp11::mp_list<gil::rgba_layout_t, gil::bgra_layout_t, gil::argb_layout_t, gil::abgr_layout_t>;
@@ -296,6 +357,15 @@ template <typename Ls, typename Fn> static void for_layout_pairs(const string& a
 }
 template <typename Fn> static void for_type(const string& t, Fn&& fn) {
     mp11::mp_for_each<types>([&](auto x) { if (t == tname<decltype(x)>::get()) fn(x); });
+}
+
+template <typename BF, typename Ls, typename Sz> static string spare(const std::vector<string>& w) {
+    string out = "bad-op"; std::vector<double> a, b;
+    if (w.size() > 7) {
+        parse_lists(w, 7, a, b);
+        for_layout_pairs<Ls>(w[3], w[5], [&](auto dl, auto sl) { out = spare_op<BF, Sz, decltype(dl), decltype(sl)>(w[4][0], hv::to_ull(w[6]), a); });
+    }
+    return out;
 }
 
 template <typename Ls> static string homog(const std::vector<string>& w) {
@@ -335,6 +405,18 @@ int main() {
         auto w = hv::words(line);
         if (w.size() < 5) return "bad-op";
         const string& cs = w[1]; const string& t = w[2];
+        if (w[0] == "spare") {
+#if HAS(6)
+            if (cs == "rgb" && t == "s432") return spare<std::uint16_t, rgb_ls, sz<4, 3, 2>>(w);
+            if (cs == "rgb" && t == "s565w") return spare<std::uint32_t, rgb_ls, sz<5, 6, 5>>(w);
+            if (cs == "rgb" && t == "s222") return spare<std::uint8_t, rgb_ls, sz<2, 2, 2>>(w);
+            if (cs == "gray" && t == "sg3") return spare<std::uint8_t, gray_ls, sz<3>>(w);
+#endif
+#if HAS(7)
+            if (cs == "rgba" && t == "s5551w") return spare<std::uint32_t, rgba_ls, sz<5, 5, 5, 1>>(w);
+#endif
+            return "bad-op";
+        }
         if (w[0] == "alg") {
 #if HAS(4)
             if (cs == "rgb") return algs<rgb_ls>(w); if (cs == "cmyk") return algs<cmyk_ls>(w); if (cs == "gray") return algs<gray_ls>(w);
